@@ -500,7 +500,7 @@ pub fn run(ctx: &Ctx) -> Verdict {
     ];
     let prelude = prelude();
     v.subs.push(crate::replay_corpus(ctx, &|sub, case| replay(sub, case)));
-    let n = ctx.tier.pick(480, 8_000) as usize;
+    let n = ctx.tier.pick(960, 16_000) as usize;
     let batches = n.div_ceil(1200);
     for b in 0..batches {
         let sub = if batches == 1 { "messages".to_string() } else { format!("messages-{b}") };
